@@ -146,9 +146,8 @@ def run(ctx):
                                    else dict(byz, MaxUpdates=4, MaxGap=3, MaxEvents=3))   # = every behaviour with <=3 events
         # the same export from the restart initial states (a Committing view exists from the first update on): reaches
         # updates that carry a Committing view together with a NilVotedRound within the event bound
-        jobs["emitrst"] = pool.submit(ctx.tlc, "ChattyMC", "Chatty_emitq.cfg", timeout=2400, workers=4,
-                                      defines=dict(byz, MaxUpdates=2, MaxGap=3, MaxEvents=3, Restart="TRUE", Kinds='{"pc"}') if quick
-                                      else dict(byz, MaxUpdates=2, MaxGap=3, MaxEvents=3, Restart="TRUE"))
+        jobs["emitrst"] = pool.submit(ctx.tlc, "ChattyMC", "Chatty_emitrst.cfg", timeout=2400, workers=4,
+                                      defines=dict(byz, Kinds='{"pc"}') if quick else (byz or None))
         jobs["sim"] = pool.submit(ctx.tlc, "ChattyMC", "Chatty_sim.cfg", timeout=900 if quick else 2400, workers=4,
                                   simulate="num=%d" % (80 if quick else 600), depth=80, extra=["-seed", str(ctx.seed)], defines=byz or None)
         if not quick:
